@@ -26,7 +26,7 @@ def punch_lock_rules(ctx, chk, rid):
                        msg="a region's tail may only be punched while its metadata write lock, the layout read lock "
                            "and the file read lock are held")
     reads = M(r"rawdb::region_metadata::RegionMetadata::(start|len|reserved)")
-    rs = O.need_sites(ph, reads, 3)
+    rs = O.need_sites(ph, reads, 1)
     guards = set()
     for b in rs:
         t = ph.blocks[b]["term"]
@@ -80,7 +80,7 @@ def run(ctx, chk):
     # inspects and punches the tail ceil(len)..reserved, which excludes a concurrent append into that tail only if the
     # appending thread holds the metadata lock while it copies the bytes (it publishes the new len afterwards)
     ww = O.body("rawdb::region::Region::write_with")
-    dw = O.need_sites(ww, M(r"rawdb::Database::write"), 4)
+    dw = O.need_sites(ww, M(r"rawdb::Database::write"), 2)
     unlocked = [b for b in dw if not any(c == "META" for c, m in O.held_classes(ww, b))]
     chk.oblige("B12.5 held_at(write_with: Database::write into the region's reserve, META) [%d data-write sites]" % len(dw),
                not unlocked, detail={"unprotected_sites": [ww.blocks[b]["term"].get("span") for b in unlocked]},
@@ -127,8 +127,8 @@ def run(ctx, chk):
     for a in allowed:
         O.body(a)
     bad, n = O.only_callers(set_len, allowed)
-    if n < 3:
-        raise AnchorMissing("expected >= 3 File::set_len sites, found %d" % n)
+    if n < 2:
+        raise AnchorMissing("expected >= 2 File::set_len sites, found %d" % n)
     chk.oblige("B12.3 only_callers(File::set_len) = {open_with_min_len, set_min_len, Regions::set_min_len} [%d sites]"
                % n, not bad, detail={"offenders": bad}, key="B12.3|only_callers|File::set_len",
                msg="only the growth functions may change a file's length (compact must not)")
